@@ -106,6 +106,9 @@ func (p *storageProvider) releaseLock() error {
 // initSegmentCounter scans existing segments and initializes the counter.
 // This ensures newly created segments have unique IDs.
 func (p *storageProvider) initSegmentCounter() error {
+	if err := verifFault("provider.initSegmentCounter"); err != nil {
+		return err
+	}
 	entries, err := os.ReadDir(p.baseDir)
 	if err != nil {
 		return fmt.Errorf("failed to read directory: %w", err)
@@ -173,6 +176,9 @@ func (p *storageProvider) segmentPaths(segmentID uint64) (hybrid, vector, text, 
 //   - []uint64: Sorted list of segment IDs
 //   - error: Error if directory reading fails
 func (p *storageProvider) listSegments() ([]uint64, error) {
+	if err := verifFault("provider.listSegments"); err != nil {
+		return nil, err
+	}
 	entries, err := os.ReadDir(p.baseDir)
 	if err != nil {
 		return nil, fmt.Errorf("failed to read directory: %w", err)
